@@ -403,6 +403,8 @@ class Workers:
         return True
 
     def build_oracle(self, res):
+        # the oracle extracts from Codec/Readings.vo too (request `merge`), which Props/C02.v does not depend on
+        vlib.coq_build(["Codec/Readings.vo"])
         rc, log = vlib.build_oracle("codec")
         exe = os.path.join(vlib.BUILD, "oracle_codec")
         if rc != 0 or not os.path.exists(exe):
@@ -503,7 +505,7 @@ class Finding:
 
 def split_rt(ans):
     """'ok <hex> <tree> <hex2>' -> (status, hex, tree text, hex2); an empty encoding is an empty word"""
-    if not ans.startswith(("ok ", "toobig ")):
+    if not ans.startswith(("ok ", "toobig ", "alias ", "encalias ", "pmarshal ")):
         return (ans.split(" ")[0] if ans else "none"), None, None, None
     st, rest = ans.split(" ", 1)
     a = rest.find("(")
@@ -603,9 +605,23 @@ def evaluate(L, W, cases, pid, use_oracle=True):
             continue
 
         # ================= step 1: the property on Go alone =================
-        rt_ok = st == "ok" and gtree == cs["tree"] and ghex2 == ghex
+        rt_ok = st in ("ok", "encalias", "pmarshal") and gtree == cs["tree"] and ghex2 == ghex
+        if st in ("encalias", "pmarshal"):
+            # both properties speak about THE bytes of a value: bytes that change after they were returned, or a value that
+            # changes with them, are not that (the harness overwrites what Marshal returned and encodes again)
+            if st == "encalias":
+                F(Finding("encoded-bytes-not-owned:" + nm, "%s: the bytes MarshalBinary returned and the value are not independent: a later Marshal changed bytes "
+                          "returned earlier, or overwriting the returned bytes changed the value / its next encoding" % nm))
+            else:
+                F(Finding("param-marshal-differs:" + nm, "%s: the exported MarshalBinary of the parameter is not its encoding without the %s header" % (nm, "TLV" if c["is_tlv"] else "TV")))
         if pid == "C01":
-            if st != "ok":
+            if st == "alias":
+                # values, not views: the decoded value changed when the decoder's input buffer was overwritten afterwards
+                path = _diff_path(L, cs, gtree)
+                F(Finding("roundtrip-aliases-input:%s:%s" % (nm, path), "%s: the value UnmarshalBinary yields is a view onto its input, not a value: after the caller "
+                          "overwrote the input buffer (as a receive loop does with the next message) the decoded value differs from the original at %s and "
+                          "re-encodes to %s" % (nm, path, "other bytes" if ghex2 != ghex else "the same bytes")))
+            elif st not in ("ok", "encalias", "pmarshal"):
                 what = {"err": "returned an error", "panic": "panicked", "died": "killed the worker (crash or hang)",
                         "hang": "did not return within the watchdog time (hang)", "skipped": "was skipped after too many hangs"}.get(st, st)
                 F(Finding("roundtrip:%s:%s" % (nm, st), "%s: marshal/unmarshal/marshal of a well-formed value %s" % (nm, what)))
@@ -679,6 +695,14 @@ def evaluate(L, W, cases, pid, use_oracle=True):
             cs = cases[i]
             nm = cs["name"]
             if a == "ok " + cs["tree"] or a == "skipped":
+                continue
+            if a.startswith("alias "):
+                # the converse clause speaks of the VALUE a conformant encoding denotes: what the decoder returned changed when its input was overwritten
+                path = _diff_path(L, cs, a[6:])
+                findings[i].append(Finding(
+                    ("dec-ref-aliases-input:%s:%s" if pid == "C02" else "roundtrip-aliases-input:%s:%s") % (nm, path),
+                    "%s: what Go's decoder yields for the conformant (reference) encoding is a view onto its input, not the value it denotes: after the "
+                    "caller overwrote the input buffer (as a receive loop does with the next message) it differs from that value at %s" % (nm, path), True))
                 continue
             path = _diff_path(L, cs, a[3:]) if a.startswith("ok ") else a.split(" ")[0]
             findings[i].append(Finding(
@@ -777,6 +801,162 @@ def concurrency_step(L, W, picked, pid, repeats=1):
                                                 goroutines=CONC_GOROUTINES, rounds=CONC_ROUNDS, sequential=want[:4000],
                                                 observed=got[:8000], cases=[dict(tree=c2["tree"]) for c2, _ in b]), True))
             k += 2
+    return out, stats
+
+
+# ---------------------------------------------------------------- values, not views: one buffer, several messages
+def pick_pairs(L, cases, obs, seed, per_container):
+    """ordered pairs (first, second) of well-formed values of ONE container that round-trip on their own: neighbours in the
+    generated order (they differ in one aspect), random pairs, a value followed by itself and by the container's minimal value"""
+    import random
+    per = collections.OrderedDict()
+    for cs, o in zip(cases, obs):
+        if cs["wf"] and o.get("go") in ("ok", "alias") and cs["size"] <= 4096 and len(cs["tree"]) <= 12000:
+            per.setdefault(cs["name"], []).append(cs)
+    out = []
+    for nm, lst in per.items():
+        rnd = random.Random("%d:pairs:%s" % (seed, nm))
+        cand = [(lst[i], lst[i + 1]) for i in range(len(lst) - 1)]
+        rnd.shuffle(cand)
+        mine = cand[:max(1, per_container // 2)]
+        big = sorted(lst, key=lambda cs: -len(cs["tree"]))[:8]
+        for _ in range(per_container // 2):
+            mine.append((rnd.choice(big), rnd.choice(lst)))
+        mine.append((big[0], big[0]))
+        mine.append((big[0], min(lst, key=lambda cs: len(cs["tree"]))))
+        seen = set()
+        for a, b in mine:
+            if (a["hash"], b["hash"]) not in seen:
+                seen.add((a["hash"], b["hash"]))
+                out.append((a, b))
+    return out
+
+
+def merge_prediction(L, c, old, new):
+    """what the generated decoders are EXPECTED to leave in a receiver that held `old` after UnmarshalBinary of `new`'s encoding
+    (recorded, not judged): numbers and fixed arrays are overwritten; a string / list of numbers / bit-array's bytes / rest of length 0
+    leaves the old one; a present optional replaces, an absent one leaves the old; repeated sub-parameters are APPENDED; of an exclusive
+    group only the alternative on the wire is written."""
+    fs = []
+    for f, x, y in zip(c["named"], old[2], new[2]):
+        k = f["kind"]
+        if k in ("string", "rest") or (k == "fixedarr" and False):
+            fs.append(y if y[1] else x)
+        elif k == "counted":
+            fs.append(y if y[1] else x)
+        elif k == "bitarray":
+            fs.append(['A', y[1], y[2] if y[2] else x[2]])
+        else:
+            fs.append(y)
+    ss = []
+    chosen = {}
+    for s, y in zip(c["subs"], new[3]):
+        if s["excl"] and L.go_nonzero(s["c"], y):
+            chosen.setdefault(s["group"], s["name"])
+    for s, x, y in zip(c["subs"], old[3], new[3]):
+        if s["arity"] == "one":
+            if s["excl"] and chosen.get(s["group"]) != s["name"]:
+                ss.append(x)
+            else:
+                ss.append(merge_prediction(L, s["c"], x, y))
+        elif s["arity"] == "opt":
+            ss.append(y if y[1] is not None else x)
+        else:
+            ss.append(['L', x[1] + y[1]])
+    return ['S', new[1], fs, ss]
+
+
+def value_semantics_step(L, W, pairs, pid, use_oracle=True):
+    """(1) `seq`: the encodings of two values are decoded one after the other through ONE buffer (a receive loop); afterwards the FIRST
+    decoded value must still be the first value (and the second the second).  (2) `dinto`: UnmarshalBinary into a receiver that already
+    holds a value: recorded (as-fresh / merged as predicted / other), not judged.
+    -> (list of (signature, what, replay, found), stats)"""
+    stats = dict(pairs=len(pairs), containers=len(set(a["name"] for a, _ in pairs)), first_value_unchanged=0, changed=0,
+                 nonzero_receiver=dict(pairs=0, result_is_new_value=0, merged_as_predicted=0, other=0, failed=0, containers_where_old_data_survives=0))
+    if not pairs:
+        return [], stats
+    reqs = []
+    for a, b in pairs:
+        reqs.append("seq %s;%s" % (a["tree"], b["tree"]))
+        reqs.append("dinto %s;%s" % (a["tree"], b["tree"]))
+    ans = W.go(reqs)
+    model = W.oracle(["merge %s;%s" % (a["tree"], b["tree"]) for a, b in pairs]) if use_oracle and W.oracle_ok else None
+    out, seen, merging, odd = [], set(), set(), []
+    nz = stats["nonzero_receiver"]
+    if model is not None:
+        nz["equal_to_model_merge_into"] = 0
+    ncorr = 0
+    for k, (a, b) in enumerate(pairs):
+        g, d = ans[2 * k], ans[2 * k + 1]
+        if model is not None and d.startswith("ok ") and model[k].startswith("ok "):
+            if model[k] == d:
+                nz["equal_to_model_merge_into"] += 1
+            else:
+                ncorr += 1
+                sig = "corr-merge:" + a["name"]
+                if sig not in seen and ncorr <= 3:
+                    seen.add(sig)
+                    try:
+                        path = tree_diff(L, L.by_cid[a["cid"]], G.parse(model[k][3:]), G.parse(d[3:]))
+                    except Exception:
+                        path = "<unparsable>"
+                    out.append((sig, "%s: what UnmarshalBinary leaves in a receiver that already holds a value is not the model's Readings.merge_into "
+                                "(first difference at %s) — the model of decoding into a used receiver (C01_decode_into_fresh_receiver, "
+                                "C01_reused_receiver_refuted) no longer corresponds to the code [receiver held %s; decoded %s]"
+                                % (a["name"], path, a["tree"][:300], b["tree"][:300]),
+                                dict(kind="codec-seq", container=a["name"], cid=a["cid"], cases=[dict(tree=a["tree"]), dict(tree=b["tree"])]), False))
+        nm = a["name"]
+        if g != "skipped":
+            sig = what = None
+            if g.startswith("ok ") and "\t" in g:
+                ta, tb = g[3:].split("\t", 1)
+                if ta == a["tree"] and tb == b["tree"]:
+                    stats["first_value_unchanged"] += 1
+                else:
+                    stats["changed"] += 1
+                    first = ta != a["tree"]
+                    try:
+                        path = tree_diff(L, L.by_cid[a["cid"]], G.parse(a["tree"] if first else b["tree"]), G.parse(ta if first else tb))
+                    except Exception:
+                        path = "<unparsable>"
+                    sig = "value-changes-when-buffer-reused:%s:%s" % (nm, path)
+                    what = ("%s: two encodings decoded one after the other through one buffer (each into a fresh value): %s at %s — what "
+                            "UnmarshalBinary yields must be the value the bytes denote, not a view onto the caller's buffer"
+                            % (nm, "once the second was received the FIRST decoded value no longer equals the first value" if first
+                               else "the second decoded value is not the second value", path))
+            elif g == "encalias":
+                stats["changed"] += 1
+                sig = "encoded-bytes-not-owned:" + nm
+                what = "%s: encoding a second value changed the bytes MarshalBinary had returned for the first: they are not the caller's" % nm
+            else:
+                stats["changed"] += 1
+                sig = "value-changes-when-buffer-reused:%s:%s" % (nm, g.split(" ")[0])
+                what = "%s: decoding two encodings one after the other through one buffer: the worker answered %s" % (nm, g[:60])
+            if sig and sig not in seen:
+                seen.add(sig)
+                out.append((sig, what + " [first %s; second %s]" % (a["tree"][:300], b["tree"][:300]),
+                            dict(kind="codec-seq", container=nm, cid=a["cid"], cases=[dict(tree=a["tree"]), dict(tree=b["tree"])]), True))
+        if d != "skipped":
+            nz["pairs"] += 1
+            if d == "ok " + b["tree"]:
+                nz["result_is_new_value"] += 1
+            elif d.startswith("ok "):
+                merging.add(nm)
+                try:
+                    pred = G.fmt(merge_prediction(L, L.by_cid[a["cid"]], G.parse(a["tree"]), G.parse(b["tree"])))
+                except Exception:
+                    pred = None
+                if pred == d[3:]:
+                    nz["merged_as_predicted"] += 1
+                else:
+                    nz["other"] += 1
+                    if len(odd) < 3:
+                        odd.append(dict(container=nm, old=a["tree"][:400], new=b["tree"][:400], receiver=d[3:][:400], predicted=(pred or "")[:400]))
+            else:
+                nz["failed"] += 1
+    nz["containers_where_old_data_survives"] = len(merging)
+    if odd:
+        nz["not_as_predicted_samples"] = odd
     return out, stats
 
 
@@ -1125,6 +1305,26 @@ def run(pid, tier, seed, replay, title_assumptions):
             what += " [%d container types affected in this run]" % (n_enc if cls.startswith("bytes") else n_dec)
         res.violation(sig, what, rp, found)
     t_conc = time.time() - t0
+
+    # ---- values, not views: two messages through one buffer; decoding into a receiver that already holds a value (recorded)
+    t0 = time.time()
+    if replay:
+        rc = [cs for cs in cases if cs["wf"]]
+        pairs = [(a, b) for a in rc for b in rc if a["cid"] == b["cid"]][:400]
+    else:
+        pairs = pick_pairs(L, cases, obs, seed, 60 if tier == "thorough" else 12)
+    vs, vs_stats = value_semantics_step(L, W, pairs, pid, use_oracle=have_oracle)
+    shown = collections.Counter()
+    for sig, what, rp, found in sorted(vs, key=lambda x: (len(x[2]["cases"][0]["tree"]) + len(x[2]["cases"][1]["tree"]), x[0])):
+        cls = sig.split(":")[0]
+        shown[cls] += 1
+        if shown[cls] > 3:
+            continue            # one cause, many containers: the three smallest witnesses are enough
+        n_cls = sum(1 for x in vs if x[0].split(":")[0] == cls)
+        if shown[cls] == 1 and n_cls > 1:
+            what += " [%d signatures of this kind in this run]" % n_cls
+        res.violation(sig, what, rp, found)
+    t_vs = time.time() - t0
     for r in W.dead[:3]:
         res.notes.append("Go worker died on: " + r[:300])
     if W.skipped:
@@ -1185,6 +1385,12 @@ def run(pid, tier, seed, replay, title_assumptions):
         )) if pid == "C01" else {}),
         concurrency=dict(conc_stats, note="batches of different values marshalled (penc) and their encodings unmarshalled (pdec) "
                          "from several goroutines at once; every result must equal the sequential one", seconds=round(t_conc, 1)),
+        value_semantics=dict(vs_stats, seconds=round(t_vs, 1),
+                             every_case="rt/dec: the buffer handed to UnmarshalBinary is overwritten (every byte changed) before the decoded value is "
+                                        "printed and re-encoded; the bytes Marshal returned are overwritten and the value is encoded again",
+                             note="seq: two encodings of one container decoded one after the other through ONE buffer, the first value compared afterwards; "
+                                  "nonzero_receiver: UnmarshalBinary into a value that already holds data — recorded only (the property is read as "
+                                  "speaking of decoding into a fresh value; see notes/codec-harness.md round 6)"),
         trusted_base=res.assumptions,
         timing=dict(proof_s=round(t_proof, 1), generate_s=round(t_gen, 1), evaluate_s=round(t_eval, 1), shrink_s=round(t_shrink, 1),
                     go_worker_s=round(W.go_time, 1), oracle_s=round(W.oracle_time, 1)),
